@@ -117,19 +117,8 @@ def body(chk):
     if len(outer) != 1:
         raise Inconclusive('Cucumber::filter_run: %d candidates' % len(outer))
     poll = prog.bodies.get(outer[0].name + '::{closure#0}')
-    # the map closure: the one taking a parser::Result<gherkin::Feature>
-    mapc = [b for n, b in prog.bodies.items() if n.startswith(poll.name + '::{closure#') and len(b.params) == 2 and
-            'Result<gherkin::Feature' in b.params[1][1] and n.count('{closure#') == 2]
-    filt = [b for n, b in prog.bodies.items() if n.startswith(poll.name + '::{closure#') and len(b.params) == 4 and n.count('{closure#') == 2]
-    if len(mapc) != 1 or len(filt) != 1:
-        raise Inconclusive('filter_run closures: map %d, filter %d' % (len(mapc), len(filt)))
-    mapc, filt = mapc[0], filt[0]
-    map_ty = re.sub(r'^&\s*(mut\s+)?', '', mapc.params[0][1])
-    filt_ty = re.sub(r'^&\s*(mut\s+)?', '', filt.params[0][1])
-    map_caps = closure_captures(prog, map_ty)
-    filt_caps = closure_captures(prog, filt_ty)
-    if 'filter' not in map_caps or set(filt_caps) != {'re_filter', 'tags_filter', 'filter'}:
-        raise Inconclusive('unexpected captures: map %s filter %s' % (map_caps, filt_caps))
+    # (the map closure and whatever filter value it captures are taken from the REAL coroutine below: no assumption
+    #  about how filter_run structures its closures)
     vs = t.enum_variants('gherkin::tagexpr::TagOperation')
     ix_tag = {v[0]: i for i, v in enumerate(vs)}
     F = t.struct_fields('gherkin::Feature')
